@@ -59,7 +59,10 @@ def run(ck, prog):
         "Identifier::value and Identifier::range of the same node with the current file; (R06.6) where one "
         "identifier range is registered both as the definition of a new symbol and as a reference to another (a "
         "`let` override of a field), the reference is registered last: the position map (iset insert = replace) "
-        "then resolves the range to the referenced symbol, whose reference list contains it.")
+        "then resolves the range to the referenced symbol, whose reference list contains it; (R06.7) in every indexer "
+        "function that takes a declaring name from utils::identifier, no Indexable::index call has as receiver the "
+        "identifier node or a node it was obtained from (which would register the declaring range as a use of an "
+        "earlier symbol before the new symbol replaces it in the position map).")
     ck.trusted = ["iset interval map returns the stored value for a covering interval"]
     for r, t in (("R06.1", "name and location come from one identifier token"),
                  ("R06.2", "one symbol table; handlers return the symbol's own locations unmodified"),
@@ -191,6 +194,8 @@ def run(ck, prog):
                           b.where(late[0]) if late else b.where(ci)))
     ck.floor("R06.6", "ranges registered both as a definition and as a reference", nshared, 1)
 
+    r067(ck, prog)
+
     # ---- R06.2 handlers ------------------------------------------------------------------
     FIND = "ide::symbol_map::SymbolMap::find_symbol_at"
     for fn, getter in (("ide::handlers::goto_definition::exec", "define_loc"),
@@ -300,3 +305,72 @@ def run(ck, prog):
         ok = any(c.endswith("first_token") for c in calls) and any(c.endswith("::" + what) for c in calls)
         ck.ob("R06.4", "token:%s" % fn, ok, "%s reads %s() of the node's first token" % (fn.rsplit("::", 1)[-1], what),
               msg="%s no longer reads the node's first token" % fn)
+
+
+def _ast_chain(prog, b, op):
+    """AST accessor call sites a value was obtained through: {bb: 'direct' | 'behind'}; 'direct' = reached from the
+    value through transparent (std / rowan / iterator / Option) calls only, 'behind' = an ancestor further up. The chain
+    follows the receiver of `syntax::ast::*` accessors and every argument of transparent calls."""
+    out = {}
+    todo = [(op, "direct")]
+    seen = set()
+    steps = 0
+    while todo and steps < 400:
+        steps += 1
+        o, lvl = todo.pop()
+        for x in prov.origins(b, o):
+            if x[0] != "call" or not isinstance(x[2], int):
+                continue
+            key = (x[2], lvl)
+            if key in seen:
+                continue
+            seen.add(key)
+            t = b.term(x[2])
+            c = Body.callee(t) or ""
+            if c.startswith("syntax::ast::") or "as rowan::ast::AstNode>" in c or "as syntax::ast::" in c:
+                if out.get(x[2]) != "direct":
+                    out[x[2]] = lvl
+                if t["args"]:
+                    todo.append((t["args"][0], "behind"))
+            elif c.startswith("ide::") or c.startswith("syntax::"):
+                continue            # a repository function that is not an accessor: not followed
+            else:
+                for a in t["args"]:
+                    todo.append((a, lvl))
+    return out
+
+
+def r067(ck, prog):
+    """R06.7: the identifier that becomes the definition range of a new symbol is not indexed as a use as well. In every
+    indexer function that takes a name and its range from utils::identifier(&id, ..), no `Indexable::index` call of the
+    same function has as receiver the identifier node itself or a node the identifier was obtained from (an ancestor in
+    the chain of AST accessors): indexing that node registers references inside it - among them the identifier's own
+    range - under whatever the name resolves to at that point, and the later registration of the new symbol replaces
+    the range in the position map, so a location returned by find-references leads to a different symbol."""
+    ck.rule("R06.7", "a declaring identifier is not also indexed as a use of an earlier symbol")
+    nid = npairs = 0
+    for b in list(prog.bodies.values()):
+        if b.crate != "ide.rlib" or not b.path.startswith(("ide::index", "<syntax::ast::")) or "Indexable" not in b.path and not b.path.startswith("ide::index"):
+            continue
+        ids = [(i, t) for i, t in b.calls() if Body.callee(t) == IDENT]
+        if not ids:
+            continue
+        idx_calls = [(i, t) for i, t in b.calls()
+                     if (t["f"].get("decl") or "").endswith("index::Indexable::index") and t["args"]]
+        for i, t in ids:
+            nid += 1
+            chain = _ast_chain(prog, b, t["args"][0])
+            for j, t2 in idx_calls:
+                npairs += 1
+                direct = {bb for bb, lvl in _ast_chain(prog, b, t2["args"][0]).items() if lvl == "direct"}
+                shared = direct & set(chain)
+                ck.ob("R06.7", "%s:%s" % (b.path, (Body.callee(t2) or "").split(" as ")[0].lstrip("<")), not shared,
+                      "the indexed node is not an ancestor of the declaring identifier", nontrivial=False,
+                      msg="%s: the node handed to %s [%s] is the identifier passed to utils::identifier [%s] or a node that "
+                          "contains it (both come from %s [%s]): its parts are registered as references, the declaring "
+                          "identifier's own range among them, and the symbol declared there replaces that range in the "
+                          "position map afterwards" % (
+                              b.path, Body.callee(t2), b.where(j), b.where(i),
+                              Body.callee(b.term(sorted(shared)[0])) if shared else "", b.where(sorted(shared)[0]) if shared else ""))
+    ck.floor("R06.7", "utils::identifier call sites examined", nid, 8)
+    ck.count(npairs)
